@@ -27,7 +27,7 @@ INFO = dict(
     "for the concrete witnesses); patch areas at their real size 6144/2048 with symbolic content; XorEncoded containers (C09/C01); "
     "beacon XOR keys other than 0x2e (the library supports only the default)",
     stubs=["guardrails.find_xor_key_candidates -> nondeterministic candidate list (safety) / list containing the true key (recovery)",
-           "BEACON_CONFIG_PATCH_SIZE / GUARD_PATCH_SIZE -> scaled module globals", "io.BufferedReader.peek -> model", "pe.find_* on files < 88 bytes -> None (lemma, C09/C01)"],
+           "BEACON_CONFIG_PATCH_SIZE / GUARD_PATCH_SIZE -> scaled module globals", "io.BufferedReader.peek -> model", "pe.find_mz_offset -> None, justified per path by the validity predicate 'the file contains no DOS header candidate' (assumed explicitly: files here reach 112 bytes, beyond the 64-byte lemma)"],
     assumptions=["z3 decides QF_BV soundly"],
 )
 
@@ -134,6 +134,7 @@ def build(ctx, P, G, klen, opts, lead, trail, checksum_mode, stray=None):
                 stray_conds.append(e.e)
     if stray_conds:
         ctx.assume(mkbool(z3.Not(z3.Or(*stray_conds))))
+    assume_no_mz(ctx, cells)
     bad = []
     for k in (0x69, 0x2E, 0x00):
         for i in range(0, len(cells) - 6):  # (anywhere in the file: the guard area and the area boundary included)
@@ -146,6 +147,35 @@ def build(ctx, P, G, klen, opts, lead, trail, checksum_mode, stray=None):
         ctx.assume(mkbool(z3.Not(z3.Or(*bad))))
     lay.update(plain=plain, key=key, vals=vals, good=good, stored=m_int_from_bytes(SymBytes(cks), "big"))
     return cells, lay
+
+
+def assume_no_mz(ctx, cells):
+    """validity predicate behind the find_mz_offset cut: no offset o holds a DOS header whose e_lfanew (0 < v < 1024) points at a
+    readable file header with an x86/x64 Machine value — B.7's definition negated (a Guardrails payload that is ALSO a PE image at
+    a scanned offset would take the XorEncoded detection path; outside this check)"""
+    n = len(cells)
+    conds = []
+    for o in range(0, n - 63):
+        lf = cells[o + 60:o + 64]
+        for v in range(1, min(1024, n - 24 - o - 4 + 1 + 4)):
+            fo = o + 4 + v
+            if fo + 20 > n:
+                break
+            want = list(v.to_bytes(4, "little"))
+            e1 = SymBytes(lf).eq(SymBytes(want))
+            if e1 is False:
+                continue
+            m = cells[fo:fo + 2]
+            e2a = SymBytes(m).eq(SymBytes([0x4C, 0x01]))
+            e2b = SymBytes(m).eq(SymBytes([0x64, 0x86]))
+            if e2a is False and e2b is False:
+                continue
+            t = lambda x: z3.BoolVal(x) if isinstance(x, bool) else x.e  # noqa: E731
+            if e1 is True and (e2a is True or e2b is True):
+                raise PathAbort()
+            conds.append(z3.And(t(e1), z3.Or(t(e2a), t(e2b))))
+    if conds:
+        ctx.assume(mkbool(z3.Not(z3.Or(*conds))))
 
 
 def with_stub(cands_fn, P, G, f):
